@@ -62,6 +62,12 @@ fn cases_list() -> Vec<Value> {
             }
         }
     }
+    // every call form with an observable effect in every position whose value is discarded
+    for form in ["fn", "closure", "method-dot", "method-path", "trait-path", "trait-bound", "dyn", "generic", "builtin"] {
+        for pos in ["stmt", "while-tail", "while-tail-if", "if-stmt", "match-stmt", "let-underscore", "block-tail-in-if"] {
+            v.push(json!({"kind": "discard", "form": form, "pos": pos}));
+        }
+    }
     for n in 0..=3 {
         for callee in ["fn", "closure", "returned-closure", "returned-fn", "method-dot", "method-path", "generic"] {
             v.push(json!({"kind": "call", "n": n, "callee": callee}));
@@ -169,6 +175,71 @@ fn build(case: &Value) -> Option<(Program, String)> {
             let args = vec![E::Bool(bits & 1 != 0), E::Bool(bits & 2 != 0), E::Bool(bits & 4 != 0), int(case["z"].as_i64().unwrap() as i128)];
             body.push(st(T6::Bool.show(call("guard", args))));
             site = format!("guard={};trap_pos={};others={};pos={}", f, trap_pos, others, pos);
+        }
+        "discard" => {
+            let form = case["form"].as_str().unwrap();
+            let pos = case["pos"].as_str().unwrap();
+            items.push(Item::Struct(StructDef { name: "Rc".into(), generics: vec![], fields: vec![("base".into(), Ty::i32())], derives: vec![] }));
+            let sf = n.fresh("self");
+            items.push(Item::Impl(ImplDef {
+                generics: vec![],
+                trait_name: None,
+                for_ty: Ty::named("Rc"),
+                methods: vec![FnDef { name: "go_m".into(), generics: vec![], bounds: vec![], params: vec![(sf, Ty::named("Rc"))], ret: Some(Ty::Unit), body: block(vec![st(println(add(s("in-method"), i2s(E::Field(Box::new(v(sf)), "base".into())))))], None) }],
+            }));
+            items.push(Item::Trait(TraitDef { name: "Tk".into(), methods: vec![("tick".into(), vec![Ty::Param("Self".into())], Ty::Unit)] }));
+            let sf2 = n.fresh("self");
+            items.push(Item::Impl(ImplDef {
+                generics: vec![],
+                trait_name: Some("Tk".into()),
+                for_ty: Ty::named("Rc"),
+                methods: vec![FnDef { name: "tick".into(), generics: vec![], bounds: vec![], params: vec![(sf2, Ty::named("Rc"))], ret: Some(Ty::Unit), body: block(vec![st(println(s("in-tick")))], None) }],
+            }));
+            items.push(fn_def("target", vec![], Some(Ty::Unit), block(vec![st(println(s("in-fn")))], None)));
+            let gx = n.fresh("x");
+            items.push(Item::Fn(FnDef { name: "gtarget".into(), generics: vec!["G".into()], bounds: vec![], params: vec![(gx, Ty::Param("G".into()))], ret: Some(Ty::Unit), body: block(vec![st(println(s("in-generic")))], None) }));
+            let bu = n.fresh("u");
+            items.push(Item::Fn(FnDef {
+                name: "via_bound".into(),
+                generics: vec!["U".into()],
+                bounds: vec![("U".into(), vec!["Tk".into()])],
+                params: vec![(bu, Ty::Param("U".into()))],
+                ret: Some(Ty::Unit),
+                body: E::TraitCall("Tk".into(), "tick".into(), CallForm::Path, vec![v(bu)], Ty::Param("U".into())),
+            }));
+            let (rc, d, clo, cell, cnt) = (n.fresh("rc"), n.fresh("d"), n.fresh("clo"), n.fresh("cell"), n.fresh("cnt"));
+            body.push(let_t(rc, Ty::named("Rc"), E::StructLit("Rc".into(), vec![("base".into(), int(5))], vec![])));
+            body.push(let_t(d, Ty::Dyn("Tk".into()), E::ToDyn("Tk".into(), Box::new(v(rc)), Ty::named("Rc"))));
+            body.push(let_(clo, E::Closure(vec![], Box::new(block(vec![st(println(s("in-closure")))], None)))));
+            body.push(let_(cell, bi("ref", vec![int(0)])));
+            body.push(let_(cnt, bi("ref", vec![int(0)])));
+            let mk = |k: i128| -> E {
+                let _ = k;
+                match form {
+                    "fn" => call("target", vec![]),
+                    "closure" => E::Call(Box::new(v(clo)), vec![]),
+                    "method-dot" => E::Inherent("Rc".into(), "go_m".into(), CallForm::Dot, vec![v(rc)], vec![]),
+                    "method-path" => E::Inherent("Rc".into(), "go_m".into(), CallForm::Path, vec![v(rc)], vec![]),
+                    "trait-path" => E::TraitCall("Tk".into(), "tick".into(), CallForm::Path, vec![v(rc)], Ty::named("Rc")),
+                    "trait-bound" => callg("via_bound", vec![Ty::named("Rc")], vec![v(rc)]),
+                    "dyn" => E::TraitCall("Tk".into(), "tick".into(), CallForm::Path, vec![v(d)], Ty::Dyn("Tk".into())),
+                    "generic" => callg("gtarget", vec![Ty::i32()], vec![int(3)]),
+                    _ => bi("ref_set", vec![v(cell), add(bi("ref_get", vec![v(cell)]), int(1))]),
+                }
+            };
+            let bump = st(bi("ref_set", vec![v(cnt), add(bi("ref_get", vec![v(cnt)]), int(1))]));
+            let cond = bin(BinOp::Lt, bi("ref_get", vec![v(cnt)]), int(2));
+            match pos {
+                "stmt" => body.push(st(mk(0))),
+                "while-tail" => body.push(st(E::While(Box::new(cond), Box::new(block(vec![bump], Some(mk(0))))))),
+                "while-tail-if" => body.push(st(E::While(Box::new(cond), Box::new(block(vec![bump], Some(if_(bin(BinOp::Lt, bi("ref_get", vec![v(cnt)]), int(2)), mk(0), mk(1)))))))),
+                "if-stmt" => body.push(st(if_(T6::Bool.probe(1), mk(0), mk(1)))),
+                "match-stmt" => body.push(st(E::Match(Box::new(T6::I32.probe(1)), vec![(Pat::Int(1, IntKind::I32, false), mk(0)), (Pat::Wild, mk(1))]))),
+                "let-underscore" => body.push(Stmt::Let(Pat::Wild, None, mk(0))),
+                _ => body.push(st(if_(T6::Bool.probe(2), block(vec![st(println(s("in-block")))], Some(mk(0))), E::Unit))),
+            }
+            body.push(st(T6::I32.show(bi("ref_get", vec![v(cell)]))));
+            site = format!("discard={};pos={}", form, pos);
         }
         "call" => {
             let nargs = case["n"].as_u64().unwrap() as usize;
@@ -340,7 +411,7 @@ impl Family for EvalOrder {
         &["C09", "C01", "C02", "C04"]
     }
     fn rule(&self) -> &'static str {
-        "effect probes in both operand positions of all 12 binary operators at int32/int8/string/bool; full truth tables (8 assignments) of 10 &&/||/! formulas in 5 positions (let, if condition, while condition, argument, return); calls with 0-3 probed arguments through 7 callee forms (fn, closure, effectful callee expression yielding a closure / yielding a plain function, method dot/path form with probed receiver, generic fn); struct literals in all 6 written field orders; while with 0-3 iterations and a probed condition; tuple/array/constructor elements; guards: the same 10 formulas x 8 assignments with a call-free trapping operand (100 / z > 3, z in {0, 1}) in each leaf position, the other leaves plain variables or probes, as a function result or an if condition. non-trivial = programs printing >= 2 probes; distinct = distinct source text"
+        "effect probes in both operand positions of all 12 binary operators at int32/int8/string/bool; full truth tables (8 assignments) of 10 &&/||/! formulas in 5 positions (let, if condition, while condition, argument, return); calls with 0-3 probed arguments through 7 callee forms (fn, closure, effectful callee expression yielding a closure / yielding a plain function, method dot/path form with probed receiver, generic fn); struct literals in all 6 written field orders; while with 0-3 iterations and a probed condition; 9 call forms with an effect (fn, closure, method dot/path, trait path, through a bound, dyn, generic, builtin) in 7 positions whose value is discarded (statement, tail of a while body, tail of an if inside a while body, branch of an if / match statement, let _, tail of a block inside an if statement); tuple/array/constructor elements; guards: the same 10 formulas x 8 assignments with a call-free trapping operand (100 / z > 3, z in {0, 1}) in each leaf position, the other leaves plain variables or probes, as a function result or an if condition. non-trivial = programs printing >= 2 probes; distinct = distinct source text"
     }
     fn cases(&self, _tier: Tier) -> Box<dyn Iterator<Item = Value> + '_> {
         Box::new(cases_list().into_iter())
